@@ -283,3 +283,47 @@ func lemmaXteaKeyBlock2(key [4]uint32, k []byte, s []byte) bool {
 // every character EncryptKey produces is in the alphabet (so DecryptKey does not refuse it)
 //@ lemma lemmaEncCharsValid props=C20
 func lemmaEncCharsValid(v byte) bool { return specB64Inv(specB64Char(v&0x3f)) == v&0x3f }
+
+// ---------------------------------------------------------------------------------------------------------
+// Salsa / Shuffle (license v2 / v3) and tampering (property C12).
+// x/crypto's salsa.XORKeyStream is outside the verified code; its documented contract: out = in XOR a key stream
+// that depends on the counter and the key only - not on the data. specKS is that key stream (uninterpreted).
+
+//@ opaque specKS
+func specKS(c *Salsa, i int) byte { return 0 }
+
+// ASSUMED, not proved (box copies the nonce into array fields and calls HSalsa20 / XORKeyStream: slices of array
+// fields are outside the verifier's memory model): box XORs the data with a key stream fixed by the cipher object
+//@ assume (*Salsa).box iface post=post_Salsa_box modifies=data
+func post_Salsa_box(c *Salsa, data, old_data []byte) bool {
+	return vs.Forall(0, 24, func(i int) bool { return len(data) != 24 || data[i] == old_data[i]^specKS(c, i) })
+}
+
+// Salsa.DecryptKey: a 32-character key string decodes to 24 bytes, each XOR-ed with a key-stream byte that does
+// not depend on the string. Anything that is not 32 alphabet characters is refused.
+//@ verify (*Salsa).DecryptKey pre=pre_Salsa post=post_Salsa_DecryptKey_bad,post_Salsa_DecryptKey_xor props=C12,C20
+func pre_Salsa(c *Salsa) bool { return c != nil }
+func post_Salsa_DecryptKey_bad(buffer []byte, old_buffer []byte, res1 error) bool {
+	return (len(buffer) == 32 && specAllB64(old_buffer)) || res1 != nil
+}
+func post_Salsa_DecryptKey_xor(c *Salsa, buffer []byte, old_buffer []byte, res0 security.Key, res1 error) bool {
+	if len(buffer) != 32 || !specAllB64(old_buffer) {
+		return true
+	}
+	return res1 == nil && len(res0) == 24 && vs.Forall(0, 24, func(i int) bool {
+		return res0[i] == specDecByte(old_buffer, i)^specKS(c, i)
+	})
+}
+
+// No authentication: because the key stream does not depend on the data, changing the key string changes the
+// decrypted key by exactly the same XOR. The claim of C12 for a stream cipher would be: no two different 24-byte
+// plaintexts p, p' that share contract, signature and master id (so that contract.Validate accepts both) exist
+// such that p' grants a permission p does not. It is FALSE - one bit of byte 15 (ciphertext character 20/21)
+// turns a read key into a read-write key. Isolated as this lemma; known finding for v2 (Salsa) and v3 (Shuffle).
+//@ lemma lemmaStreamCipherNoEscalation pre=pre_lemmaStream props=C12
+func pre_lemmaStream(p, q, ks []byte) bool { return len(p) == 24 && len(q) == 24 && len(ks) == 24 }
+func lemmaStreamCipherNoEscalation(p, q, ks []byte) bool {
+	// p: an issued key; q: what the broker decrypts after the attacker XOR-ed the ciphertext with (p^q) - any q is reachable
+	sameOwner := vs.Forall(2, 12, func(i int) bool { return p[i] == q[i] }) // master id, contract, signature
+	return !sameOwner || q[15]&^p[15] == 0                                     // ... then q grants nothing p did not
+}
